@@ -15,6 +15,7 @@ use std::ops::Mul;
 pub fn run(ctx: &mut Ctx) {
     kzg_real_setup(ctx);
     marlin_trim(ctx);
+    marlin_prepared_keys(ctx);
     transparent_generators(ctx);
     crate::generic::c09_reloaded_all(ctx);
     ctx.flush_model("C09");
@@ -222,4 +223,66 @@ fn transparent_generators(ctx: &mut Ctx) {
         ctx.rep.case(&format!("hyrax setup nv={} key={}", nv, pp.com_key.len()), Some(format!("hyrax-setup/{}", nv)));
     }
     let _ = (Fr::one(), wire::nat(0));
+}
+
+/// The prepared form of a Marlin verifier key carries, for every enforced bound, the doubling table of THAT
+/// bound's shift element (`table[0]` = the shift element of the key, `table[k+1] = 2·table[k]`, one entry per
+/// bit of the scalar field): what `trim` states about shift elements must survive `prepare`.
+fn marlin_prepared_keys(ctx: &mut Ctx) {
+    use ark_ec::{AffineRepr, CurveGroup};
+    use ark_ff::PrimeField;
+    use ark_poly_commit::marlin_pc::PreparedVerifierKey;
+    use ark_poly_commit::{PCPreparedVerifierKey, PolynomialCommitment};
+    type PC = crate::generic::MarlinPC;
+    for i in 0..ctx.n(3, 12) {
+        let id = format!("C09/marlin-prepared-key/{}", i);
+        if !ctx.selected(&id) {
+            continue;
+        }
+        let mut rng = rng_for(ctx.seed, "C09/marlin-prepared-key", i as u64);
+        let d = 12 + i % 6;
+        let bounds: Vec<usize> = match i % 3 { 0 => vec![4, 9, d], 1 => vec![d - 1, 2], _ => vec![3] };
+        let r = guarded(|| -> Result<Vec<String>, String> {
+            let pp = PC::setup(d, None, &mut rng).map_err(|e| format!("{:?}", e))?;
+            let (_ck, vk) = PC::trim(&pp, d, 1, Some(&bounds)).map_err(|e| format!("{:?}", e))?;
+            let pvk = PreparedVerifierKey::prepare(&vk);
+            let mut bad = vec![];
+            let plain = vk.degree_bounds_and_shift_powers.clone().unwrap_or_default();
+            let prep = pvk.prepared_degree_bounds_and_shift_powers.clone().unwrap_or_default();
+            if plain.len() != prep.len() {
+                bad.push(format!("{} bounds in the key, {} tables in the prepared key", plain.len(), prep.len()));
+            }
+            let bits = <Fr as PrimeField>::MODULUS_BIT_SIZE as usize;
+            for ((b, s), (pb, table)) in plain.iter().zip(prep.iter()) {
+                if b != pb {
+                    bad.push(format!("bound {} became {}", b, pb));
+                }
+                if table.len() != bits {
+                    bad.push(format!("table of bound {} has {} entries, the scalar field has {} bits", b, table.len(), bits));
+                }
+                if table.first() != Some(s) {
+                    bad.push(format!("table of bound {} does not start with that bound's shift element", b));
+                }
+                for k in 0..table.len().min(4).saturating_sub(1) {
+                    if (table[k].into_group() + table[k].into_group()).into_affine() != table[k + 1] {
+                        bad.push(format!("table of bound {}: entry {} is not twice entry {}", b, k + 1, k));
+                    }
+                }
+            }
+            if pvk.max_degree != vk.max_degree || pvk.supported_degree != vk.supported_degree {
+                bad.push("degree reports changed".into());
+            }
+            Ok(bad)
+        });
+        match r {
+            Ok(Ok(bad)) => {
+                if !bad.is_empty() {
+                    ctx.rep.expect_fail(&id, "marlin/prepared-key-shift-tables", &format!("PreparedVerifierKey::prepare: {}", bad.join("; ")),
+                        format!("# scheme: marlin\n# case: {}\n# seed: {}\n# setup({}), trim(pp, {}, 1, Some({:?})), PreparedVerifierKey::prepare(&vk)\n# rerun: .build/cargo/debug/pcv-harness C09 --seed {} --only {}\n", id, ctx.seed, d, d, bounds, ctx.seed, id));
+                }
+                ctx.rep.case(&format!("marlin prepared key bounds {:?}: {} problems", bounds, bad.len()), Some(format!("marlin-prepared/{}", bounds.len())));
+            }
+            Ok(Err(e)) | Err(e) => ctx.rep.notes.push(format!("{}: not run ({})", id, e.chars().take(60).collect::<String>())),
+        }
+    }
 }
